@@ -378,6 +378,12 @@ func cmdCheck(args []string) int {
 		m.Notes = append(m.Notes, x.Notes...)
 		m.HashCapped = m.HashCapped || x.HashCapped
 		for k, v := range x.Counters {
+			if strings.HasPrefix(k, "max_") {
+				if v > m.Counters[k] {
+					m.Counters[k] = v
+				}
+				continue
+			}
 			m.Counters[k] += v
 		}
 		if len(m.Samples) < 6 {
@@ -439,7 +445,9 @@ func cmdCheck(args []string) int {
 		nviol++
 		path := writeReplay(v)
 		// confirm by replaying twice without the explorer
-		if c.Replay != nil && os.Getenv("VERIF_NO_CONFIRM") == "" {
+		// a report of the race detector is proof in itself (no false positives) and depends on the
+		// timing of a free-running execution: it is not replay-confirmed
+		if c.Replay != nil && os.Getenv("VERIF_NO_CONFIRM") == "" && !strings.HasPrefix(v.Key, "data-race:") {
 			ok1 := runReplay(self, path)
 			ok2 := runReplay(self, path)
 			if !(ok1 && ok2) {
